@@ -74,6 +74,58 @@ def make_script(idx, seed, kmin, kmax):
     return p, "\n".join(lines) + "\n", queries
 
 
+class _PropProblem:
+    """declarations of a purely propositional instance, in the shape run_case expects"""
+    logic = "QF_BOOL"
+    def __init__(self, nv):
+        self.decls = [f"(declare-fun v{i} () Bool)" for i in range(nv)]
+    def set_logic(self):
+        return "(set-logic QF_UF)"
+
+
+def make_prop_script(idx, seed, kmin, kmax):
+    """larger propositional refutations (random 3-CNF above the threshold split into named assertions): every Boolean
+    interpolation algorithm, with and without proof reduction; the proofs are big enough for the reduction rules and the
+    proof-sensitive labellings to matter"""
+    rng = random.Random(f"c08-prop-{seed}-{idx}-{kmin}")
+    nv = rng.randint(5, 9)
+    p = _PropProblem(nv)
+    alg = idx % 6
+    opts = [":print-success true", ":produce-interpolants true", f":interpolation-bool-algorithm {alg}"]
+    if rng.random() < 0.6:
+        opts.append(":proof-reduce 1")
+        if rng.random() < 0.5:
+            opts.append(f":proof-num-graph-traversals {rng.randint(1, 4)}")
+    if rng.random() < 0.3:
+        opts.append(f":simplify-interpolants {rng.choice([0, 1, 2, 3, 4])}")
+    lines = [f"(set-option {o})" for o in opts] + [p.set_logic()] + p.decls
+    ncl = int(nv * rng.uniform(4.6, 6.5))
+    clauses = []
+    for _ in range(ncl):
+        vs = rng.sample(range(nv), rng.choice([2, 3, 3, 3]))
+        clauses.append("(or " + " ".join((f"(not v{v})" if rng.random() < 0.5 else f"v{v}") for v in vs) + ")")
+    active, nm, i = [], 0, 0
+    while i < len(clauses):
+        k = rng.randint(1, 3)
+        t = clauses[i] if k == 1 or i + 1 >= len(clauses) else "(and " + " ".join(clauses[i:i + k]) + ")"
+        i += k
+        nm += 1
+        lines.append(f"(assert (! {t} :named N{nm}))"); active.append((t, f"N{nm}"))
+    lines.append("(check-sat)")
+    queries = []
+    names = [n for _, n in active]
+    for _ in range(2):
+        k = rng.randint(kmin, min(kmax, len(names)))
+        pool = names[:]
+        rng.shuffle(pool)
+        cut = sorted(rng.sample(range(1, len(pool)), k - 1))
+        groups = [pool[a:b] for a, b in zip([0] + cut, cut + [len(pool)])]
+        txt = " ".join(g[0] if len(g) == 1 else "(and " + " ".join(g) + ")" for g in groups)
+        lines.append(f"(get-interpolants {txt})")
+        queries.append((len(lines) - 1, groups, active))
+    return p, "\n".join(lines) + "\n", queries
+
+
 def from_file(path):
     """a corpus script in the one-command-per-line format: queries and active assertions are read off the text"""
     script = open(path).read()
@@ -118,7 +170,10 @@ def decide(decls, logic_line, texts, binary, stats):
 
 def run_case(args):
     idx, seed, binary, kmin, kmax = args
-    p, script, queries = from_file(idx) if isinstance(idx, str) else make_script(idx, seed, kmin, kmax)
+    if isinstance(idx, tuple):
+        p, script, queries = make_prop_script(idx[1], seed, kmin, kmax)
+    else:
+        p, script, queries = from_file(idx) if isinstance(idx, str) else make_script(idx, seed, kmin, kmax)
     out, err, rc = runner.run_opensmt(binary, script, None, timeout=30)
     res = {"idx": idx, "script": script, "problems": [], "itps": 0, "queries": 0, "logic": p.logic, "stats": {}, "rejected": 0}
     if rc == "timeout":
@@ -515,7 +570,9 @@ def run(tier, pid="C08"):
     kmin, kmax = (2, 2) if pid == "C08" else (3, 5)
     with mp.Pool(min(common.JOBS, 14)) as pool:
         corpus = sorted(str(f) for f in (common.VERIF / "corpus" / pid).glob("*.smt2"))
-        results = pool.map(run_case, [(i, chk.seed, binary, kmin, kmax) for i in corpus + list(range(n))], chunksize=2)
+        nprop = 48 if tier == "quick" else 1200
+        results = pool.map(run_case, [(i, chk.seed, binary, kmin, kmax) for i in corpus + list(range(n)) + [("prop", j) for j in range(nprop)]],
+                           chunksize=2)
     stats, itps, queries = {}, 0, 0
     for r in results:
         itps += r["itps"]; queries += r["queries"]
